@@ -474,6 +474,17 @@ func c12Run(c *engine.Ctx, in []byte, args map[string]string) {
 			if !bytes.Equal(b.caller, b.pristine) {
 				c.Fail("Restore", histStr(h, "second Restore() changed the array"))
 			}
+			// the borrowed byte is the caller's again once Restore gave it back: a later write of the caller stays
+			if b.spare && len(b.caller) > 0 {
+				last := len(b.caller) - 1
+				b.caller[last] ^= 0xFF
+				wrote := b.caller[last]
+				z.Restore()
+				if b.caller[last] != wrote {
+					c.Fail("Restore-one-shot", histStr(h, fmt.Sprintf("then Restore(), the caller writes %#x into the byte it got back, Restore() again: the byte reads %#x", wrote, b.caller[last])))
+				}
+				b.caller[last] = b.pristine[last]
+			}
 			c.Count("transitions", 1)
 		}
 	}
@@ -600,7 +611,7 @@ func c12Finish(c *engine.Ctx, cov map[string]interface{}) string {
 func init() {
 	register(&engine.Check{
 		ID: "C12", Level: "model_checking",
-		Rule:        "every byte string of ≤k atoms over {a,NUL,0x80,0xA9,0xC3,0xE2,0xF0,é,U+2028,😀,U+0101,U+07FF} × 15 constructors × {parse.Input, buffer.Lexer}; per case a breadth-first search to a fix-point over all reachable (start,pos) states of the real object (successor = fresh object + shortest history + one operation), every observer and mutator compared with a reference cursor (PeekErr also up to 3 bytes beyond the end); per input also every entry point that builds an Input over caller bytes itself (Position and NewError at every offset in [-1,len+1], css.IsIdent, css.IsURLUnquoted) with three kinds of bytes behind the data in the same array, which must be unchanged afterwards; in every state Restore() must leave Pos, Offset, Len, Bytes, Lexeme, Err and Peek as they were; three objects made from readers one after the other must keep their own bytes; distinct_nontrivial = canonical atom sequences of ≥2 atoms on non-failing constructors",
+		Rule:        "every byte string of ≤k atoms over {a,NUL,0x80,0xA9,0xC3,0xE2,0xF0,é,U+2028,😀,U+0101,U+07FF} × 15 constructors × {parse.Input, buffer.Lexer}; per case a breadth-first search to a fix-point over all reachable (start,pos) states of the real object (successor = fresh object + shortest history + one operation), every observer and mutator compared with a reference cursor (PeekErr also up to 3 bytes beyond the end); per input also every entry point that builds an Input over caller bytes itself (Position and NewError at every offset in [-1,len+1], css.IsIdent, css.IsURLUnquoted) with three kinds of bytes behind the data in the same array, which must be unchanged afterwards; in every state Restore() must leave Pos, Offset, Len, Bytes, Lexeme, Err and Peek as they were; three objects made from readers one after the other must keep their own bytes; a byte the caller writes after Restore() survives a second Restore(); distinct_nontrivial = canonical atom sequences of ≥2 atoms on non-failing constructors",
 		Assumptions: []string{"operations respect the documented contract: position never moved past the terminator or before start", "private fields start,pos,buf,err are read by reflection to show that equal model states mean equal implementation states (justifies the fix-point)"},
 		Setup:       c12Setup, Work: c12Work, Finish: c12Finish,
 	})
